@@ -26,6 +26,8 @@ type CliCfg struct {
 	WriteFaults []int
 	DialFaults  bool // a dial may be refused
 	SrvClose    bool // the server may close right after replying
+	NoCommon    bool // the server's Discover Versions answer shares no version with the client: Dial must fail and leave nothing behind
+	Bytes       bool // calls are Encrypt requests whose response carries a byte string (the identifier); the responses are kept and re-read once everything has ended
 	Closer      bool // a further thread calls Close on the client at any time
 	LibMw       bool // the client is built with the library's own middlewares (TimeoutMiddleware, CorrelationValueMiddleware, DebugMiddleware)
 	SrvStray    bool // the server sends an unsolicited request message before every response (the client must skip it)
@@ -46,6 +48,7 @@ type cliWorld struct {
 	seen   map[string]int // request transmissions seen by servers, per identifier
 	conns  []*Conn
 	closeReturned mc.Var[bool] // set once the closer thread's Close has returned
+	held          map[string]*payloads.EncryptResponsePayload
 }
 
 // echoServer answers each Activate request with its own identifier; DiscoverVersions with 1.4..1.0.
@@ -68,8 +71,15 @@ func (w *cliWorld) echoServer(c *Conn) {
 			w.seen[p.UniqueIdentifier]++
 			mc.Observe(mc.HashStr(p.UniqueIdentifier))
 			pl = &payloads.ActivateResponsePayload{UniqueIdentifier: p.UniqueIdentifier}
+		case *payloads.EncryptRequestPayload:
+			w.seen[p.UniqueIdentifier]++
+			mc.Observe(mc.HashStr(p.UniqueIdentifier))
+			pl = &payloads.EncryptResponsePayload{UniqueIdentifier: p.UniqueIdentifier, Data: append([]byte{}, p.Data...)}
 		case *payloads.DiscoverVersionsRequestPayload:
 			pl = &payloads.DiscoverVersionsResponsePayload{ProtocolVersion: []kmip.ProtocolVersion{kmip.V1_4, kmip.V1_3, kmip.V1_2, kmip.V1_1, kmip.V1_0}}
+			if w.cfg.NoCommon {
+				pl = &payloads.DiscoverVersionsResponsePayload{ProtocolVersion: []kmip.ProtocolVersion{{ProtocolVersionMajor: 9, ProtocolVersionMinor: 9}}}
+			}
 		default:
 			mc.Failf("server-got-garbage: unexpected payload %T", p)
 			_ = c.Close()
@@ -131,6 +141,25 @@ func (w *cliWorld) call(cl *kmipclient.Client, c Call) bool {
 		ctx = cctx
 		defer cancel()
 	}
+	if w.cfg.Bytes {
+		resp, err := cl.Request(ctx, &payloads.EncryptRequestPayload{UniqueIdentifier: c.ID, Data: []byte("data-of-" + c.ID)})
+		if err != nil {
+			mc.Observe(1)
+			return false
+		}
+		pl, ok := resp.(*payloads.EncryptResponsePayload)
+		if !ok {
+			mc.Failf("corrupt-response: call %s got payload %T", c.ID, resp)
+			return false
+		}
+		mc.Observe(mc.HashStr(pl.UniqueIdentifier))
+		if pl.UniqueIdentifier != c.ID || string(pl.Data) != "data-of-"+c.ID {
+			mc.Failf("misassociation: call %s received the response to %s (data %q)", c.ID, pl.UniqueIdentifier, pl.Data)
+			return false
+		}
+		w.held[c.ID] = pl
+		return true
+	}
 	resp, err := cl.Request(ctx, &payloads.ActivateRequestPayload{UniqueIdentifier: c.ID})
 	if err != nil {
 		mc.Observe(1)
@@ -152,7 +181,7 @@ func (w *cliWorld) call(cl *kmipclient.Client, c Call) bool {
 func clientScenario(cfg CliCfg) func() {
 	return func() {
 		resetPackages()
-		w := &cliWorld{cfg: cfg, seen: map[string]int{}}
+		w := &cliWorld{cfg: cfg, seen: map[string]int{}, held: map[string]*payloads.EncryptResponsePayload{}}
 		opts := []kmipclient.Option{kmipclient.WithDialerUnsafe(w.dialer)}
 		if !cfg.Negotiate {
 			opts = append(opts, kmipclient.EnforceVersion(kmip.V1_4))
@@ -167,9 +196,21 @@ func clientScenario(cfg CliCfg) func() {
 		f0 := w.faults
 		cl, err := kmipclient.DialContext(context.Background(), "mc", opts...)
 		if err != nil {
-			if w.faults == f0 {
+			if w.faults == f0 && !cfg.NoCommon {
 				mc.Failf("dial-failed: without any injected fault: %v", err)
 			}
+			// a failed Dial leaves nothing behind: every connection it opened (it may have re-dialled after a fault) is closed
+			mc.Yield("settle")
+			for i, cn := range w.conns {
+				if !cn.localClosed {
+					mc.Failf("dial-failed-connection-left-open: Dial returned %v but connection %d it had opened is still open", err, i+1)
+				}
+			}
+			return
+		}
+		if cfg.NoCommon {
+			mc.Failf("dial-failed-expected: Dial succeeded although the server shares no version with the client")
+			_ = cl.Close()
 			return
 		}
 		done := make([]*mc.Var[bool], len(cfg.Callers))
@@ -232,6 +273,12 @@ func clientScenario(cfg CliCfg) func() {
 			}
 			_ = cl.Close()
 		}
+		// the responses handed to the callers are still their own once every later exchange has happened
+		for id, pl := range w.held {
+			if pl.UniqueIdentifier != id || string(pl.Data) != "data-of-"+id {
+				mc.Failf("misassociation: the response kept by call %s reads (%s, %q) after the later exchanges on the connection", id, pl.UniqueIdentifier, pl.Data)
+			}
+		}
 		for id, n := range w.seen {
 			if n > 4 {
 				mc.Failf("retransmit: request %s was transmitted %d times by a single call", id, n)
@@ -253,6 +300,8 @@ func init() {
 	cli("cli-stray-requests", "the server sends an unsolicited request message before every response; callers A (cancellable) and B, then C", CliCfg{SrvStray: true, Callers: [][]Call{{{ID: "A", Ctx: "cancel"}, {ID: "C"}}, {{ID: "B"}}}})
 	cli("cli-par-2-libmw", "two concurrent callers through the library's own middlewares (correlation value, 1 s timeout, debug)", CliCfg{LibMw: true, Callers: [][]Call{{{ID: "A"}}, {{ID: "B"}}}})
 	cli("cli-par-3-libmw", "three concurrent callers (one cancellable, one with a follow-up call) through the library's own middlewares", CliCfg{LibMw: true, Callers: [][]Call{{{ID: "A", Ctx: "cancel"}}, {{ID: "B"}, {ID: "D"}}, {{ID: "C"}}}})
+	cli("cli-bytes-seq-par", "callers A then C, and B concurrently, with responses carrying byte strings; every response is re-read after all exchanges", CliCfg{Bytes: true, Callers: [][]Call{{{ID: "A"}, {ID: "C"}}, {{ID: "B"}}}})
+	cli("cli-bytes-cancel", "A (cancellable) then B then C sequentially, byte-string responses re-read at the end", CliCfg{Bytes: true, Callers: [][]Call{{{ID: "A", Ctx: "cancel"}, {ID: "B"}, {ID: "C"}}}})
 	cli("cli-negotiate-cancel", "dial with version discovery, then A cancellable, then B", CliCfg{Negotiate: true, Callers: [][]Call{{{ID: "A", Ctx: "cancel"}, {ID: "B"}}}})
 	// C11
 	rf := []int{FEOF, FReset, FShort}
@@ -265,6 +314,7 @@ func init() {
 	cli("clf-close-during-call", "Close called by another thread at any time while a caller performs two calls: no dial and no successful call once Close has returned, nothing left behind", CliCfg{Closer: true, AfterClose: true, Callers: [][]Call{{{ID: "A"}, {ID: "B"}}}})
 	cli("clf-close-during-call-srvclose", "the same while the server may close right after replying", CliCfg{Closer: true, SrvClose: true, AfterClose: true, Callers: [][]Call{{{ID: "A"}, {ID: "B"}}}})
 	cli("clf-close-during-par", "Close at any time while two callers call concurrently", CliCfg{Closer: true, AfterClose: true, Callers: [][]Call{{{ID: "A"}}, {{ID: "B"}}}})
+	cli("clf-negotiate-nocommon", "dial with version discovery against a server sharing no version, under read/write faults: Dial fails and every connection it opened is closed", CliCfg{Negotiate: true, NoCommon: true, ReadFaults: rf, WriteFaults: wf, SrvClose: true})
 	cli("clf-close-only", "no faults: calls, close, call after close fails, close is idempotent", CliCfg{Callers: [][]Call{{{ID: "A"}}}, AfterClose: true, CheckFaults: true})
 }
 
